@@ -117,6 +117,20 @@ def _names_nest(repo, cls, fn, call):
                 best = st
     if best is None:
         return None
+    # locals defined before the construction (e.g. `n_cov = <getter>()`)
+    pre = dict(ncov)
+    for st in fn.body:
+        if st.lineno >= best.lineno:
+            break
+        if isinstance(st, ast.Assign) and len(st.targets) == 1 and \
+                isinstance(st.targets[0], ast.Name):
+            try:
+                v_ = lf.ev(st.value, pre, fn, 0, cls)
+                if isinstance(v_, sp.Expr):
+                    pre[st.targets[0].id] = v_
+            except Exception:
+                pass
+    ncov = pre
     if isinstance(best, ast.For):
         lf.sources = [best.iter]
         env = dict(ncov)
@@ -1324,8 +1338,30 @@ def r13_1(ctx, repo):
                 layouts.setdefault((m, sigma_free), {})[k] = v
             construct = '%s.%s' % (cls, m)
             where = repo.loc(fn, cls, m)
-            bot = env.get('bottom_parameters')
-            eps = env.get('epsilon')
+            # the locals holding the individual-level block and the noise
+            # block, identified by the slice of the flat vector they come from
+            roles_ = {}
+            for st_ in pro:
+                for a_ in ast.walk(st_):
+                    if not (isinstance(a_, ast.Assign) and len(
+                            a_.targets) == 1 and isinstance(
+                            a_.targets[0], ast.Name)):
+                        continue
+                    for x_ in ast.walk(a_.value):
+                        if isinstance(x_, ast.Subscript) and isinstance(
+                                x_.slice, ast.Slice) and isinstance(
+                                x_.value, ast.Name):
+                            lo_ = U(x_.slice.lower) if x_.slice.lower \
+                                is not None else ''
+                            hi_ = U(x_.slice.upper) if x_.slice.upper \
+                                is not None else ''
+                            if lo_ == 'self._n_top' and hi_ == \
+                                    'self._end_bottom':
+                                roles_['bottom'] = a_.targets[0].id
+                            if lo_ == 'self._end_bottom' and not hi_:
+                                roles_['eps'] = a_.targets[0].id
+            bot = env.get(roles_.get('bottom'))
+            eps = env.get(roles_.get('eps'))
             okb = isinstance(bot, Arr) and bot.ndim == 2 and eq(
                 bot.axes[0].size, N_S) and eq(bot.axes[1].size, N_DIM)
             oke = isinstance(eps, Arr) and eps.ndim == 3 and all(
